@@ -23,13 +23,9 @@ def handle (fs : List String) : String :=
   | some ops => " ".intercalate ((trace3 State.init ops).map showStep)
 
 /-- counter-example lines replayed on the implementation on every run (proved in Witness.lean):
-    1. F4 — the same config with a probe log writer loaded twice, then Stop: the writer is never
-       closed, its pool count is 2 after the second load and stays 2 after Stop;
-    2. F20 — config A (reverse proxy to upstream 4) runs; a config whose reverse proxy to the same
-       upstream fails to provision early is rejected — and the running config's hosts-pool
-       reference is gone. -/
+    F4 — the same config with a probe log writer loaded twice, then Stop: the writer is never
+    closed, its pool count is 2 after the second load and stays 2 after Stop. -/
 def witnessLines : List String :=
-  ["L=0~0:1~0,1,0,-,-=1,0,-,0,0 L=0~0:1~0,1,0,-,-=1,0,-,0,0 S",
-   "L=0~-~3,1,0,-,0:4=1,0,-,-,- L=0~-~3,2,0,-,3:4=1,0,-,3,-"]
+  ["L=0~0:1~0,1,0,-,-=1,0,0,-,0,0 L=0~0:1~0,1,0,-,-=1,0,0,-,0,0 S"]
 
 end CaddyModel.C03
